@@ -194,7 +194,23 @@ JudgePixR(ev) ==
               j == JudgePix([ev EXCEPT !.ev = "pix"] @@ [m |-> [i \in 1..6 |-> D(want[i])]]) IN
           IF j \in {"ok", "unjudged"} THEN j ELSE "image handed to Draw for a gradient paint: " \o j
 
-Judge(ev) == CASE ev.ev = "pix" -> JudgePix(ev) [] ev.ev = "cfg" -> JudgeCfg(ev) [] ev.ev = "pixr" -> JudgePixR(ev)
+(* hard edges (round 10): stops whose offsets are neighbouring float32 numbers (far below the 2^-12 grid of JudgePix) and *)
+(* a linear gradient whose pixel centres fall exactly on them.  Offsets in units of 2^-27: the matrix row is exact with    *)
+(* q <= 26, the stop is an exact float32 in [0,1]; "at a stop's own offset the colour is that stop's colour", exactly,      *)
+(* however narrow the range below it.  ev.hit names the stop; a pixel that is not on it is a machinery error ("hint").      *)
+E27(d) == IF d[1] = 1 /\ d[3] >= 0 /\ d[3] <= 26 /\ Abs(d[2]) < 1073741824 \div Pow2(26 - d[3])
+            THEN [ok |-> TRUE, v |-> d[2] * Pow2(26 - d[3])] ELSE [ok |-> FALSE, v |-> 0]
+JudgeEdge(ev) ==
+  LET A == E27(ev.m[1])  Bb == E27(ev.m[2])  C == E27(ev.m[3])
+      so == AsScaled(ev.stops[ev.hit].o, 27) IN
+  IF ~(A.ok /\ Bb.ok /\ C.ok /\ so.ok /\ ev.shape = 0 /\ Abs(ev.x) < 16 /\ Abs(ev.y) < 16 /\ Abs(A.v) < 4194304 /\ Abs(Bb.v) < 4194304 /\ Abs(C.v) < 268435456) THEN "hint"
+  ELSE LET U == A.v * (2 * ev.x + 1) + Bb.v * (2 * ev.y + 1) + 2 * C.v IN
+       IF U # so.k \/ so.k < 0 \/ so.k > 134217728 THEN "hint"
+       ELSE IF \A i \in 1..Len(ev.stops) - 1 : LET p == AsScaled(ev.stops[i].o, 27)  n == AsScaled(ev.stops[i + 1].o, 27) IN p.ok /\ n.ok /\ p.k < n.k
+            THEN (IF \A ch \in 1..4 : ev.got[ch] = C16(ev.stops[ev.hit].c[ch]) THEN "ok" ELSE "colour at a stop's own offset (hard edge)")
+            ELSE "hint"
+
+Judge(ev) == CASE ev.ev = "edge" -> JudgeEdge(ev) [] ev.ev = "pix" -> JudgePix(ev) [] ev.ev = "cfg" -> JudgeCfg(ev) [] ev.ev = "pixr" -> JudgePixR(ev)
                [] ev.ev = "nodraw" -> "a path painted with a valid gradient was not drawn exactly once"
                [] OTHER -> "unknown event"
 
